@@ -99,7 +99,7 @@ theorem takeWhile_all_false {α : Type} (p : α → Bool) (l : List α) (h : ∀
 
 /-- one insertion: position, resulting list, charged comparisons, and the invariant -/
 theorem step_insert (buf : List (Int × Nat)) (h : NoInv buf) (e : Int × Nat) :
-    insertAt (MH buf) (bisectRight (MH buf) (N e)) (N e) = MH (bufInsert buf e) ∧
+    c19_insertAt (MH buf) (bisectRight (MH buf) (N e)) (N e) = MH (bufInsert buf e) ∧
     (MH buf).length - bisectRight (MH buf) (N e) + 1 = bufCost buf e ∧
     NoInv (bufInsert buf e) := by
   obtain ⟨B1, B2, rfl, h1, h2⟩ := partition buf h e
@@ -115,7 +115,7 @@ theorem step_insert (buf : List (Int × Nat)) (h : NoInv buf) (e : Int × Nat) :
       rw [tupLe_N, h2 x hx]; rfl
   refine ⟨?_, ?_, ?_⟩
   · rw [hb]
-    unfold bufInsert insertAt
+    unfold bufInsert c19_insertAt
     rw [f1, f2, MH_append, List.take_left' (length_MH B2), List.drop_left' (length_MH B2)]
     rw [MH_append, MH_cons]
     simp
@@ -401,7 +401,7 @@ theorem mergeNodes_sorted (dflt : Int) (e : Nat) :
     obtain ⟨el, hel, hin⟩ := List.mem_flatMap.1 hl'
     exact ih el.2 (hwf'.2 el (List.mem_filter.1 hel).1) lists hin l hmem
 
-theorem wfB_iff : ∀ (d : Nat) (t : Tree Int Int d), wfB d t = true ↔ WF d t := by
+theorem c19_wfB_iff : ∀ (d : Nat) (t : Tree Int Int d), wfB d t = true ↔ WF d t := by
   intro d
   induction d with
   | zero => intro t; exact ⟨fun _ => trivial, fun _ => rfl⟩
